@@ -388,6 +388,55 @@ def run_big(case):
                            "edges_below_1e-8=%s" % ("0" if tiny == 0 else "some" if tiny < 100 else "many")])
 
 
+# --------------------------------------------------------------------------
+# >= 1000-state sparse chains: the library computes the populations itself through its sparse (ARPACK) eigen-solver
+
+@st.composite
+def arpack_case(draw):
+    return {"n": draw(st.sampled_from([1000, 1001, 1100])), "seed": draw(st.integers(0, 2 ** 31 - 1)),
+            "n_clusters": draw(st.integers(2, 4)), "nsrc": draw(st.integers(1, 2)), "nsnk": draw(st.integers(1, 2)),
+            "container": draw(st.sampled_from(["csr", "coo", "csc"])),
+            "set_form": draw(st.sampled_from(["list", "col2d", "nested"]))}
+
+
+def run_arpack(case):
+    from vf import ref_c16
+    n = case["n"]
+    Ts = ref_c16.seeded_big_sparse(n, case["seed"], "rev_clusters", n_clusters=case["n_clusters"])
+    T = np.asarray(Ts.toarray())
+    A = T.T - np.eye(n)
+    A[-1, :] = 1.0
+    b = np.zeros(n)
+    b[-1] = 1.0
+    pi = np.linalg.solve(A, b)                         # stationary distribution, dense reference
+    require(np.all(pi > 0) and abs(pi.sum() - 1) < 1e-9, "harness: reference stationary vector invalid")
+    rng = np.random.RandomState(case["seed"] + 1)
+    perm = rng.permutation(n)
+    src = sorted(int(x) for x in perm[:case["nsrc"]])
+    snk = sorted(int(x) for x in perm[case["nsrc"]:case["nsrc"] + case["nsnk"]])
+    qf = R.ref_committor(T, src, snk)
+    Fref = pi[:, None] * (1.0 - qf)[:, None] * T * qf[None, :]
+    np.fill_diagonal(Fref, 0.0)
+    X = {"csr": Ts.tocsr(), "coo": Ts.tocoo(), "csc": Ts.tocsc()}[case["container"]]
+    S, K = R.set_arg(src, case["set_form"]), R.set_arg(snk, case["set_form"])
+    F = R.dense_of(tpt.reactive_fluxes(X, S, K))        # populations omitted: computed by the library
+    scale = np.maximum(Fref, Fref.T)
+    tot_ref = float(Fref[src, :].sum())
+    tot = float(F[src, :].sum())
+    require(abs(tot - tot_ref) <= 1e-5 * tot_ref, "total reactive flux out of the sources differs from the reference on a "
+            ">=1000-state sparse chain (populations computed by the library)", got=tot, want=tot_ref, n=n)
+    bad = np.abs(F - Fref) > 1e-4 * scale + 1e-300
+    require(not bad.any(), "reactive flux differs from its definition on a >=1000-state sparse chain",
+            n=n, edges=int(bad.sum()), worst=float(np.max(np.abs(F - Fref) / (scale + 1e-300))))
+    N = R.dense_of(tpt.net_fluxes(X, S, K))
+    inter = [i for i in range(n) if i not in src and i not in snk]
+    inflow, outflow = N.sum(axis=0), N.sum(axis=1)
+    require(np.all(np.abs(inflow[inter] - outflow[inter]) <= 1e-5 * np.maximum(inflow[inter], outflow[inter]) + 1e-300),
+            "net flux not conserved at an intermediate state (>=1000-state sparse chain)")
+    return Info(True, ["arpack_container=" + case["container"], "arpack_n=%d" % n, "set_form=" + case["set_form"]],
+                key=[case["n"], case["seed"], case["container"], case["nsrc"], case["nsnk"]])
+
+
 CLAUSES = [
     Clause("flux_definition", flux_case(), run_flux, quick=1500, thorough=12000, exhaustive=exhaustive_pairs,
            doc="f_ij = pi_i q-_i T_ij q+_j off the diagonal, 0 on it"),
@@ -401,6 +450,8 @@ CLAUSES = [
            doc="every sparse container gives the ndarray values"),
     Clause("big_chain_relative", big_case(), run_big, quick=24, thorough=400,
            doc="definition, net flux, conservation with per-edge relative tolerance on 150-400 state chains; arguments untouched"),
+    Clause("arpack_chain", arpack_case(), run_arpack, quick=8, thorough=64,
+           doc="definition + conservation on >=1000-state sparse chains with library-computed populations"),
     Clause("flux_definition_large", flux_case(max_n=25), run_flux, quick=0, thorough=2500),
     Clause("conservation_large", flux_case(max_n=25), run_conservation, quick=0, thorough=2500),
     Clause("reactive_populations_large", flux_case(max_n=25, reactive_only=True), run_pops, quick=0, thorough=1500),
